@@ -102,7 +102,7 @@ func c31Expect(s *uix.Session, line string, cur int, listing []string) (int, boo
 
 func c31Replay(c c31Case) (*uix.Session, *eng.Fail) {
 	p := progByName(c.Prog)
-	s, err := uix.New(p.Segs, p.Entry)
+	s, err := newSession(p)
 	if err != nil {
 		return nil, nil
 	}
@@ -144,12 +144,12 @@ func c31Replay(c c31Case) (*uix.Session, *eng.Fail) {
 func init() {
 	checks["C31"] = eng.Check{
 		Hist:        true,
-		Rule:        "explicit-state BFS to closure over (code order, cursor) on the 3-block, the loop-with-gap, the one-instruction and the 2-1-2 programs (thorough also: a 4-block program and a 5-block program in two segments) from 4 roots (initial, after an instruction move, after a block move, after both); menu in every state: down/up N and goto N for N in {0,1,2,3,Len-2,Len-1,Len,Len+1,2^31}, entry, find P for 28 patterns P (single words, several words, POSIX regex syntax in the first, a later or every word, alternations, anchors, invalid regexes in the first or a later word, patterns matching nothing); model cursor computed independently (entry = header line of the entry instruction's block + 1 + its current index; find = first matching line after the cursor, cyclically, excluding the cursor line); a command that cannot be performed must show an error and leave the cursor unchanged. Non-trivial = command that moves the cursor.",
+		Rule:        "explicit-state BFS to closure over (code order, cursor) on the 3-block, the loop-with-gap, the one-instruction and the 2-1-2 programs (thorough also: a 4-block program and a 5-block program in two segments) from 4 roots (initial, after an instruction move, after a block move, after both); menu in every state: down/up N and goto N for N in {0,1,2,3,Len-2,Len-1,Len,Len+1,2^31}, entry, find P for 28 patterns P (single words, several words, POSIX regex syntax in the first, a later or every word, alternations, anchors, invalid regexes in the first or a later word, patterns matching nothing); model cursor computed independently (entry = header line of the entry instruction's block + 1 + its current index; find = first matching line after the cursor, cyclically, excluding the cursor line); a command that cannot be performed must show an error and leave the cursor unchanged. The long walk on one session interleaves the menu with moves and enters rejected and accepted patterns twice in a row. Non-trivial = command that moves the cursor.",
 		Assumptions: []string{"the expected match set of a find pattern is computed with the standard library's POSIX regex engine (substring search for patterns without metacharacters)", "find lines with leading, trailing or doubled spaces are not judged"},
 		Run: func(r *eng.Run) {
-			for _, pn := range deepNames(r, []string{"three-blocks", "loop-with-gap", "one-instruction", "sym-blocks"}) {
+			for _, pn := range deepNames(r, []string{"three-blocks", "loop-with-gap", "one-instruction", "sym-blocks", "synthetic-long"}) {
 				p := progByName(pn)
-				s0, err := uix.New(p.Segs, p.Entry)
+				s0, err := newSession(p)
 				if err != nil {
 					continue
 				}
@@ -209,7 +209,7 @@ func init() {
 			// long walk on one session per program: the whole menu interleaved with moves, three rounds
 			for _, pn := range deepNames(r, []string{"three-blocks", "loop-with-gap", "sym-blocks"}) {
 				p := progByName(pn)
-				s0, err := uix.New(p.Segs, p.Entry)
+				s0, err := newSession(p)
 				if err != nil {
 					continue
 				}
@@ -219,7 +219,10 @@ func init() {
 				for round := 0; round < 3; round++ {
 					for i, v := range []int{0, 1, 2, 3, n - 2, n - 1, n, n + 1} {
 						hist = append(hist, uiLine{Line: fmt.Sprintf("d %d", v)}, uiLine{Line: "f addi"}, uiLine{Line: fmt.Sprintf("g %d", (v+round)%(n+2))},
-							uiLine{Line: "f ^$"}, uiLine{Line: fmt.Sprintf("u %d", v)}, uiLine{Line: "entry"}, uiLine{Line: "f Block"}, uiLine{Line: moves[(i+round)%len(moves)]}, uiLine{Line: "f jal"})
+							uiLine{Line: "f ^$"}, uiLine{Line: fmt.Sprintf("u %d", v)}, uiLine{Line: "entry"}, uiLine{Line: "f Block"}, uiLine{Line: moves[(i+round)%len(moves)]}, uiLine{Line: "f jal"},
+							// rejected patterns, each entered again (at once and after other commands), between accepted ones
+							uiLine{Line: "f addi ("}, uiLine{Line: "f addi ("}, uiLine{Line: fmt.Sprintf("g %d", v%n)}, uiLine{Line: "f ["}, uiLine{Line: "f addi"}, uiLine{Line: "f ["},
+							uiLine{Line: "f zzz"}, uiLine{Line: "f zzz"}, uiLine{Line: "f jal"}, uiLine{Line: "f jal"})
 					}
 				}
 				_, f := c31Replay(c31Case{Prog: pn, History: hist})
